@@ -333,9 +333,8 @@ def same_table(a, b, anchors=True):
                 return False
         if x["keys"] != y["keys"]:
             return False
-        if anchors and [a for a in (x.get("kanch") or []) if a] != [a for a in (y.get("kanch") or []) if a] and \
-                (x.get("kanch") or []) != (y.get("kanch") or []):
-            return False
+        if anchors and "kanch" in x and "kanch" in y and list(x["kanch"]) != list(y["kanch"]):
+            return False        # aliased keys are compared only between tables that both record them (C07 keeps its own side structure)
         if x["k"] == "s":
             tx = (x["t"], repr(float(x["v"])) if x["t"] == "float" else x["v"].lower() if x["t"] == "bool" else x["v"])
             ty = (y["t"], repr(float(y["v"])) if y["t"] == "float" else y["v"].lower() if y["t"] == "bool" else y["v"])
